@@ -504,25 +504,32 @@ func thresholdFromBoundedProbability(
 	)
 	workPrec := targetBits + intervalGuardBits
 
-	one := new(big.Float).SetPrec(workPrec).SetInt64(1)
 	upperBoundFloat := new(big.Float).SetPrec(workPrec).SetInt(upperBound)
 
-	// probability = 1 - (1-f)^sigma: since (1-f)^sigma's upper bound
-	// (hi) corresponds to probability's *lower* bound and vice versa.
-	probLo := new(big.Float).SetPrec(workPrec).Sub(one, hi)
-	probHi := new(big.Float).SetPrec(workPrec).Sub(one, lo)
-
-	thresholdLoFloat := new(big.Float).SetPrec(workPrec).Mul(
-		probLo,
-		upperBoundFloat,
-	)
-	thresholdHiFloat := new(big.Float).SetPrec(workPrec).Mul(
-		probHi,
-		upperBoundFloat,
-	)
-
-	thresholdLo, _ := thresholdLoFloat.Int(nil)
-	thresholdHi, _ := thresholdHiFloat.Int(nil)
+	// threshold = floor(U*(1-x)) = U - ceil(U*x) for the integer U = upperBound
+	// and x = (1-f)^sigma. Work on U*x directly: forming 1-x in floating point
+	// first loses x's low-order bits whenever x is tiny (the subtraction has an
+	// absolute rounding error of 2^-workPrec, which the *relative* bound
+	// x*2^-targetBits behind lo/hi does not cover), and the floor then comes
+	// out one too high. U is a power of two, so these products are exact.
+	wLo := new(big.Float).SetPrec(workPrec).Mul(lo, upperBoundFloat)
+	wHi := new(big.Float).SetPrec(workPrec).Mul(hi, upperBoundFloat)
+	ceilOf := func(x *big.Float) *big.Int {
+		i, acc := x.Int(nil)
+		if acc == big.Below {
+			i.Add(i, bigIntOne)
+		}
+		return i
+	}
+	// x's upper bound (hi) gives the threshold's lower bound and vice versa
+	thresholdLo := new(big.Int).Sub(upperBound, ceilOf(wHi))
+	thresholdHi := new(big.Int).Sub(upperBound, ceilOf(wLo))
+	if thresholdLo.Sign() < 0 { // hi may exceed 1 by the error bound
+		thresholdLo.SetInt64(0)
+	}
+	if thresholdHi.Sign() < 0 {
+		thresholdHi.SetInt64(0)
+	}
 
 	return thresholdLo, thresholdLo.Cmp(thresholdHi) == 0
 }
